@@ -56,6 +56,10 @@ func c04Extend(pb *parser.Builder) {
 	if c04Ext == 0 {
 		return
 	}
+	if c04Ext == c04ExtPlugLang {
+		c04PlugTypes = plugLangLexer(pb.LexerBuilder)
+		return
+	}
 	lb := pb.LexerBuilder
 	types := map[string]token.Type{}
 	for _, sp := range []string{"OP", "PRE", "BANG"} {
@@ -73,6 +77,19 @@ func c04Extend(pb *parser.Builder) {
 	pb.RegisterInfixOperator(types["OP"], c04Ext, mkInfix)
 	pb.RegisterPrefixOperator(types["PRE"], mkPrefix)
 	pb.RegisterPostfixOperator(types["BANG"], mkPostfix)
+}
+
+// c04ExtPlugLang: the language of the run is the plugin language of pluglang.go (three statement kinds parsed
+// by a plugin with the exported parser methods). The plugin's statement interceptor is installed LAST
+// (innermost) on every builder, so that the logging interceptors see one step per plugin statement too.
+const c04ExtPlugLang = -1
+
+var c04PlugTypes plugTypes
+
+func c04ExtendLast(pb *parser.Builder) {
+	if c04Ext == c04ExtPlugLang {
+		plugLangStatements(pb, c04PlugTypes)
+	}
 }
 
 // c04StmtDirect: the innermost statement interceptor does not call next() but dispatches on the current token
@@ -104,6 +121,7 @@ func c04Dispatch(p *parser.Parser) ast.Statement {
 func c04BasePB(m Mode) *parser.Builder {
 	pb := newPB(m)
 	c04Extend(pb)
+	c04ExtendLast(pb)
 	return pb
 }
 
@@ -190,6 +208,7 @@ func c04Build(cfg c04Cfg, m Mode, lg *c04Log) *parser.Builder {
 			})
 		})
 	}
+	c04ExtendLast(pb)
 	return pb
 }
 
@@ -440,6 +459,10 @@ func c04Coverage(prog *ast.Program, lg *c04Log, checkStmt, checkExpr bool) (kind
 				return false
 			}
 			return needE(n.Condition) && needE(n.Update) && needS(n.Body)
+		case *pStmt:
+			// what the plugin obtained from ParseExpression / ParseStatement is a step; the block it obtained
+			// from ParseBlockStatement is not (it called the method itself), the statements inside are
+			return needE(n.Cond) && needS(n.Body) && body(n.Block)
 		}
 		return true
 	}
@@ -749,6 +772,9 @@ func c04RunInput(c *core.Ctx, src string, cfgs []c04Cfg, modes []Mode, size int)
 				if c04Ext > 0 {
 					ext = fmt.Sprintf(",OP@%d", c04Ext)
 				}
+				if c04Ext == c04ExtPlugLang {
+					ext = ",plugin-language"
+				}
 				if c04StmtDirect {
 					ext += ",direct-dispatch"
 				}
@@ -804,6 +830,57 @@ func c04Extended(c *core.Ctx) {
 		}
 	}
 	c04Ext = 0
+}
+
+// c04PlugLang: the same clauses on the plugin language: all token sequences <= 3 (4 thorough) over an alphabet
+// with the three plugin keywords, and the well-formed programs of plugLangPrograms, in two layouts.
+func c04PlugLang(c *core.Ctx) {
+	c04Ext = c04ExtPlugLang
+	defer func() { c04Ext = 0 }()
+	cfgs := []c04Cfg{{0, 1, "", false}, {1, 2, "P", false}, {0, 3, "R", true}, {0, 0, "PR", false}, {2, 0, "", false}}
+	n := 3
+	if c.Thorough() {
+		n = 4
+	}
+	A := plugLangAlphabet
+	for L := 1; L <= n; L++ {
+		gen.EachSeq(len(A), L, func(idx []int) bool {
+			if !c.Next() {
+				return true
+			}
+			if c.Tick() {
+				return false
+			}
+			has := false
+			for _, x := range idx {
+				if x >= 1 && x <= 3 {
+					has = true
+				}
+			}
+			if !has {
+				return true
+			}
+			c.Inc("plugin_language_inputs")
+			cf := cfgs
+			if L == 4 {
+				cf = cfgs[:2]
+			}
+			c04RunInput(c, gen.Join(A, idx, " "), cf, []Mode{{}}, L)
+			if L >= 2 && L <= 3 {
+				c04RunInput(c, gen.Join(A, idx, "\n"), cf[:2], []Mode{{}, {Tolerant: true, Smart: true}}, L)
+			}
+			return true
+		})
+	}
+	for i, src := range plugLangPrograms(c.Thorough()) {
+		if !c.Mine(int64(i)) || c.Tick() {
+			continue
+		}
+		c.Inc("plugin_language_inputs")
+		c.Inc("plugin_language_programs")
+		c04RunInput(c, src, cfgs, Modes, 20+len(src))
+		c04RunInput(c, strings.ReplaceAll(src, " ", "\n"), cfgs[:3], []Mode{{}, {Smart: true}}, 20+len(src))
+	}
 }
 
 // c04Bytes: lexeme shapes the token alphabet does not have (unterminated and empty literals, lone escape
@@ -897,6 +974,7 @@ func c04Run(c *core.Ctx) {
 	c04Direct(c)
 	c04Bytes(c)
 	c04Extended(c)
+	c04PlugLang(c)
 	full := c04Cfgs(1)
 	if c.Thorough() {
 		full = c04Cfgs(2)
